@@ -25,6 +25,16 @@ def _c01_units(prefix, prop, cq, ct):
     return us
 
 PROPERTIES = {
+ 'C03': dict(
+    level='exploration', exhaustive_claim=False,
+    rule='model-based: generated object documents (1..10 keys; ints, strings, bools, doubles, int arrays, nested objects; MsgPack also integer / float / timestamp keys) in an envelope [padding 0..600, object, sentinel]; generated request scripts (any order, repeats, absent keys with int / string / optional / atomic / unique_ptr targets, nested object with sub-script, array read for j <= n elements, VisitKeys, early stop) executed through the public Serialize(scope, key, value) API; 4 archives x memory / stringstream / short-read stream; oracle = the document as a map + the sentinel behind the object',
+    assumptions=TRUSTED + ['keys are unique, NUL-free; XML keys are Names and XML strings non-empty (KF-13)', 'nil / empty CSV cells are "not loaded" by design'],
+    units=[U('c03_scripts', 'c03_field_order.cpp', flavour='asan', libs=['-lpugixml'], quick=dict(cases=20000, shards=8, min_eval=50000), thorough=dict(cases=600000, shards=16, min_eval=1000000))]),
+ 'C05': dict(
+    level='exploration', exhaustive_claim=False,
+    rule='arbitrary trees (depth <= 3: arrays of scalars / of objects, objects holding arrays, byte containers) with 1..6 values at any depth replaced by certainly mismatching values (other scalar kind, string, array, object, out-of-range number; for text archives: unparsable text), loaded with both Skip policies into a sentinel-filled target of the clean shape + envelope sentinel; typed objects with Required() on every field; 4 archives, memory and streams; oracle = model_skip (clean document)',
+    assumptions=TRUSTED + ['nil is "not loaded" under either policy (not used as an offence)', 'bool -> integer and (JSON) integer -> float are legal conversions, not offences', 'an int array for a byte container is legal (falls back to a regular array)'],
+    units=[U('c05_skip', 'c05_skip.cpp', flavour='asan', libs=['-lpugixml'], quick=dict(cases=20000, shards=8, min_eval=50000), thorough=dict(cases=600000, shards=16, min_eval=1000000))]),
  'C09': dict(
     level='exploration', exhaustive_claim=False,
     rule='generated tables (1..8 columns, 1..12 rows; cells: arbitrary Unicode incl. separators, quotes, CR, LF, CRLF, blanks, U+0000, long cells, numbers, booleans, ISO dates, empty) x 5 separators x memory/stream x 5 encodings x BOM; forward: strict RFC 4180 reference parser recovers header + cells; converse: reference writer with free quoting / LF or CRLF / optional final break / permuted columns loads to the same rows (maps and typed by-name struct); ragged records rejected',
